@@ -153,12 +153,15 @@ func (e *Engine) stubFor(ex *Exec, fn *ssa.Function) *ssa.Function {
 		if n == nil || n.Obj().Pkg() == nil {
 			return nil
 		}
-		name = "verifStub_" + n.Obj().Pkg().Name() + "_" + n.Obj().Name() + "_" + fn.Name()
+		name = "verifStub_" + n.Obj().Pkg().Name() + "_" + n.Obj().Name() + "_" + baseFuncName(fn.Name())
 	} else {
 		if fn.Pkg == nil {
 			return nil
 		}
-		name = "verifStub_" + fn.Pkg.Pkg.Name() + "_" + fn.Name()
+		name = "verifStub_" + fn.Pkg.Pkg.Name() + "_" + baseFuncName(fn.Name())
+	}
+	if os.Getenv("VERIF_DEBUG_STUB") != "" && strings.Contains(name, os.Getenv("VERIF_DEBUG_STUB")) {
+		fmt.Fprintln(os.Stderr, "stubFor:", fn.String(), "->", name, "found:", ex.harnessPkg.Func(name) != nil)
 	}
 	key := ex.harnessPkg.Pkg.Path() + "|" + name
 	e.mu.Lock()
@@ -638,4 +641,12 @@ func (e *Engine) debugDump() {
 		}
 	}
 	fmt.Fprintln(os.Stderr, "npkgs", len(e.pkgs), "overlay", len(e.overlay), "mod", e.modPath)
+}
+
+// baseFuncName strips the type arguments of an instantiated generic function's name.
+func baseFuncName(n string) string {
+	if i := strings.Index(n, "["); i >= 0 {
+		return n[:i]
+	}
+	return n
 }
